@@ -2,38 +2,27 @@ package main
 
 import (
 	"fmt"
+	"time"
 
 	"github.com/uhn/ggql/pkg/ggql"
-
-	"verif/mc/sgen"
 )
 
-func main() {
-	for i, s := range sgen.Bases() {
-		fmt.Println("=== base", i, "wellformed violations:", s.WellFormed())
+func try(s string) {
+	done := make(chan error, 1)
+	go func() {
 		root := ggql.NewRoot(nil)
-		err := root.ParseString(s.SDL())
-		fmt.Println("load err:", err)
-		if err != nil {
-			fmt.Println(s.SDL())
-			continue
-		}
-		var dn []string
-		for _, d := range s.Defs {
-			if d.Kind == sgen.KDirective {
-				dn = append(dn, d.Name)
-			}
-		}
-		back, err := sgen.FromRoot(root, dn)
-		if err != nil {
-			fmt.Println("fromroot err:", err)
-			continue
-		}
-		a, b := s.Canonical(sgen.CanonOpts{}), back.Canonical(sgen.CanonOpts{})
-		if a != b {
-			fmt.Println("CANON DIFF\n--- abstract\n" + a + "\n--- from root\n" + b)
-		} else {
-			fmt.Println("canonical equal,", len(a), "bytes")
-		}
+		done <- root.ParseString(s)
+	}()
+	select {
+	case err := <-done:
+		fmt.Printf("%q -> %v\n", s, err)
+	case <-time.After(2 * time.Second):
+		fmt.Printf("%q -> HANG\n", s)
+	}
+}
+
+func main() {
+	for _, s := range []string{"\"a\"\ntype Query { i: Int }", "\x01", "type Query { i: Int }\n\x01", "#", "\"\"\"\n\\\n\"\"\"\ntype Query {i: Int}", "\"", "\\", "\"\"\"", "é", "type Query {i: Int} é", "1", "{", "}", "type", "(", "@", "!", "$", "=", "&", "|", ":", "[", ","} {
+		try(s)
 	}
 }
